@@ -19,13 +19,19 @@ func init() {
 			Name: "max",
 			Args: []*slip.DocArg{
 				{
+					Name: "real",
+					Type: "real",
+					Text: "The first number to find the maximum of.",
+				},
+				{Name: "&rest"},
+				{
 					Name: "reals",
 					Type: "real",
-					Text: "The numbers to find the maximum of.",
+					Text: "The other numbers to find the maximum of.",
 				},
 			},
 			Return: "real",
-			Text:   `__max__ returns the maximum value of the _reals_.`,
+			Text:   `__max__ returns the maximum value of _real_ and the _reals_.`,
 			Examples: []string{
 				"(< 5) => 5",
 				"(< 1/2 0.6) => 0.6",
